@@ -19,6 +19,22 @@ fn f64_roundtrip_i(v: i64) -> bool {
     back == v
 }
 
+/// the serde JSON round trip in every POSITION a value can take in a document: element of an array, of a tuple, optional, value and KEY
+/// of an object (serde_json writes integer keys as strings and reads them back through the typed deserialize_u64 / _i64 entry points)
+fn rt_positions<T>(x: T) -> bool
+where
+    T: serde::Serialize + serde::de::DeserializeOwned + PartialEq + Ord + Copy,
+{
+    fn rt<V: serde::Serialize + serde::de::DeserializeOwned + PartialEq>(v: &V) -> bool {
+        serde_json::to_string(v).ok().and_then(|js| serde_json::from_str::<V>(&js).ok()).map(|back| &back == v).unwrap_or(false)
+    }
+    let mut by_key = std::collections::BTreeMap::new();
+    by_key.insert(x, 1u8);
+    let mut by_val = std::collections::BTreeMap::new();
+    by_val.insert("k".to_string(), x);
+    rt(&vec![x, x]) && rt(&(x, 1u8)) && rt(&Some(x)) && rt(&by_key) && rt(&by_val)
+}
+
 pub fn run(job: &Value) -> Value {
     let v: i128 = match job["v"].as_str().and_then(|s| s.parse().ok()) {
         Some(v) => v,
@@ -41,7 +57,7 @@ pub fn run(job: &Value) -> Value {
             let de: Result<U53, _> = serde_json::from_str(&js);
             out.insert(
                 "u53_json_rt".into(),
-                json!(de.map(|d| d == x).unwrap_or(false)),
+                json!(de.map(|d| d == x).unwrap_or(false) && rt_positions(x)),
             );
             out.insert("u53_f64_rt".into(), json!(f64_roundtrip_u(back)));
             out.insert(
@@ -92,7 +108,7 @@ pub fn run(job: &Value) -> Value {
             let de: Result<I54, _> = serde_json::from_str(&js);
             out.insert(
                 "i54_json_rt".into(),
-                json!(de.map(|d| d == x).unwrap_or(false)),
+                json!(de.map(|d| d == x).unwrap_or(false) && rt_positions(x)),
             );
             out.insert("i54_f64_rt".into(), json!(f64_roundtrip_i(back)));
             out.insert("i54_to_i32".into(), json!(i32::try_from(x).map(|n| n.to_string()).ok()));
